@@ -138,12 +138,16 @@ def run_legs(ctx, P):
     if ctx.replay:
         meta = json.load(open(os.path.join(ctx.replay, "meta.json")))
         beh_path = os.path.join(ctx.replay, "behaviours.json")
-        if meta.get("source") == "behaviour" and os.path.exists(beh_path):
-            n_random = 0
+        have_beh = os.path.exists(beh_path) and os.path.getsize(beh_path) > 2
+        ctx.seed = meta.get("seed", ctx.seed)
+        if "source" not in meta:
+            # replay directory written by pipeline.validate_all: all behaviours of that run + the random leg
+            beh_path = beh_path if have_beh else None
+        elif meta["source"] == "behaviour" and have_beh:
+            n_random = 0                                  # the single behaviour of the rejected trace
         else:
-            beh_path = None
+            beh_path = None                               # a seeded random trace: re-run the leg, keep that trace
             n_random = meta.get("n_random", n_random)
-            ctx.seed = meta.get("seed", ctx.seed)
             only_trace = meta.get("trace") - meta.get("n_behaviours", 0)
         behs = json.load(open(beh_path)) if beh_path else []
         driver["env"] = dict(driver.get("env", {}), **P.get("rerun_env", {}))
@@ -164,6 +168,9 @@ def run_legs(ctx, P):
     if only_trace is not None:
         keep = [(t, l) for t, l in pipeline.split_traces(trace_path) if t == only_trace]
         pipeline.write_traces(trace_path, keep)
+    pre = P.get("preprocess")
+    if pre:
+        pipeline.write_traces(trace_path, pre(pipeline.split_traces(trace_path)))
 
     def rerun(tag="rerun"):
         p2 = os.path.join(ctx.work, "trace-%s.ndjson" % tag)
@@ -196,6 +203,8 @@ def run_legs(ctx, P):
                 d2["env"] = dict(driver.get("env", {}), VERIF_ONLY_FILE=only, **env2)
                 p2 = os.path.join(ctx.work, "trace-rerun%d.ndjson" % attempt)
                 run_driver(ctx, d2, beh_path, p2, n_random)
+                if pre:
+                    pipeline.write_traces(p2, pre(pipeline.split_traces(p2)))
                 rej2, st2 = multi_validate(ctx, tspec, p2, chunk=P.get("chunk"), tag="rerun%d" % attempt)
                 log("re-execution %d (%s): %d of %d reproduced, validation %.1fs" % (
                     attempt, env2, sum(1 for t in pending if t in rej2), len(pending), st2["tlc_wall_s"]))
@@ -249,9 +258,10 @@ def run_legs(ctx, P):
     ctx.cov["traces_validated_against_impl"] += stats["traces"]
     ctx.cov["evaluations"] += stats["events"]
     ctx.cov["distinct_nontrivial"] += nt
-    ctx.cov["rule"] = P.get("rule", "")
+    old_rule = ctx.cov.get("rule") or ""
+    ctx.cov["rule"] = (old_rule + " | " if old_rule and old_rule != P.get("rule", "") else "") + P.get("rule", "")
     ctx.cov["exhaustive"] = bool(P.get("exhaustive", False)) and not quick
-    ctx.notes.setdefault("trace_validation", []).append(
+    ctx.notes.setdefault("trace_validation_legs", []).append(
         {"spec": tspec["module"], "traces": stats["traces"], "events": stats["events"], "distinct_traces": len(seen),
          "tlc_states": stats["tlc_states"], "tlc_wall_s": round(stats["tlc_wall_s"], 1), "rejected": rejected})
     if traces:
